@@ -1,6 +1,8 @@
 package cmd
 
 import (
+	"sort"
+
 	"github.com/evolbioinfo/goalign/align"
 	"github.com/evolbioinfo/goalign/io"
 	"github.com/evolbioinfo/goalign/io/utils"
@@ -111,7 +113,14 @@ func writeNameMap(namemap map[string]string, outfile string) (err error) {
 		return
 	}
 
-	for long, short := range namemap {
+	// sorted by original name: the map file is the same for every run
+	longs := make([]string, 0, len(namemap))
+	for long := range namemap {
+		longs = append(longs, long)
+	}
+	sort.Strings(longs)
+	for _, long := range longs {
+		short := namemap[long]
 		f.WriteString(long)
 		f.WriteString("\t")
 		f.WriteString(short)
